@@ -54,7 +54,16 @@ def corruptions():
         i = first(evs, lambda e: e["ev"] == "srv" and e["state"] == "WaitFontMap")
         if i is None: return None
         evs[i]["state"] = "Active"; return evs
-    return [("wrong_state", wrong_state), ("drop_write", drop_write), ("swap_writes", swap_writes),
+    def ultimatum_swallowed(evs):
+        i = first(evs, lambda e: e["ev"] == "srv" and e.get("ek") == "Disconnect")
+        if i is None: return None
+        evs[i]["res"] = "ok"; evs[i]["ek"] = ""; return evs
+    def offchannel_advances(evs):
+        i = first(evs, lambda e: e["ev"] == "srv" and e.get("ek") == "Disconnect")
+        j = None if i is None else max(k for k in range(i) if evs[k]["ev"] == "srv")
+        if j is None: return None
+        evs[j]["state"] = "WaitCoop"; return evs
+    return [("ultimatum_swallowed", ultimatum_swallowed), ("offchannel_advances", offchannel_advances), ("wrong_state", wrong_state), ("drop_write", drop_write), ("swap_writes", swap_writes),
             ("input_claims_ok", input_claims_ok), ("input_bytes_outside_window", input_bytes_outside_window),
             ("dup_callback", dup_callback), ("early_active", early_active)]
 
@@ -62,7 +71,8 @@ def corruptions():
 HAPPY = [{"kind": "DemandActive", "shareId": [1, 0, 0, 0]}, {"kind": "Sync"}, {"kind": "Control", "action": 4},
          {"kind": "Control", "action": 2}, {"kind": "FontMap"},
          {"kind": "FastPath", "updates": [{"t": "Bitmap"}], "rects": [{"l": 0, "t": 0, "r": 1, "b": 1, "w": 2, "h": 2, "bpp": 32, "comp": False, "data": [1, 2, 3, 4]}]},
-         {"kind": "DeactivateAll"}, {"kind": "DemandActive", "shareId": [255, 255, 255, 255]}]
+         {"kind": "DeactivateAll"}, {"kind": "DemandActive", "shareId": [255, 255, 255, 255]},
+         {"kind": "Sync", "channel": 1004}, {"kind": "SrvUltimatum"}]
 
 
 def run(tier, seed):
